@@ -306,7 +306,13 @@ func c13Cmd(args []string) error {
 
 		canonC := map[string]string{"sid": "", "theme": ""}
 
-		switch rng.Intn(6) {
+		switch rng.Intn(8) {
+		case 6: // the same name twice: the first one counts (as in net/http)
+			hdrs = append(hdrs, [2]string{"Cookie", "sid=outer; theme=dark; sid=inner"})
+			canonC["sid"], canonC["theme"] = "outer", "dark"
+		case 7: // a cookie without value in front, and a value containing '='
+			hdrs = append(hdrs, [2]string{"Cookie", "flag; sid=a=b; theme="})
+			canonC["sid"] = "a=b"
 		case 0:
 			hdrs = append(hdrs, [2]string{"Cookie", "sid=abc123"})
 			canonC["sid"] = "abc123"
